@@ -20,8 +20,10 @@ impl XorShiftRng {
     }
 
     pub fn new(seed: Option<u64>) -> XorShiftRng {
+        // an xorshift generator never leaves the all-zero state
+        let seed = seed.unwrap_or_else(|| RandomState::new().build_hasher().finish());
         XorShiftRng {
-            seed: seed.unwrap_or_else(|| RandomState::new().build_hasher().finish()),
+            seed: if seed == 0 { 0x9e37_79b9_7f4a_7c15 } else { seed },
         }
     }
 
